@@ -80,7 +80,7 @@ func (s *Sys) Reset() {
 
 var menus = map[string][]string{
 	"acct": {"bal(A1)", "nonce(A0)", "store(A0)", "code(A1)", "suicide(A0)", "create(A1)", "preimage"},
-	"val":  {"vcreate(V1)", "vdeposit(V0)", "vstatus(V0)", "dlg+(V0)", "dlg+(V2)", "dlg-(V0)", "wadd", "wrem"},
+	"val":  {"vcreate(V1)", "vdeposit(V0)", "vstatus(V0)", "dlg+(V0)", "dlg+(V2)", "dlg-(V0)", "dlg-(V2)", "wadd", "wrem"},
 	"stk":  {"bal(A1)", "dlg+(V2)", "vcreate(V1)", "srec(V1)", "srec(D,V0)", "prel(D,V2)"},
 }
 
@@ -160,9 +160,10 @@ func (s *Sys) apply(op string, idx int) string {
 			s.dead = true
 			return "ERR"
 		}
-		live := full(st)
+		// persistent content only: logs, preimages and the refund counter live in the object, not in the tries
+		live := content(st)
 		var got string
-		if m, w := mc.CatchStack(func() { got = full(re) }); m != "" {
+		if m, w := mc.CatchStack(func() { got = content(re) }); m != "" {
 			s.dead = true
 			s.fail(fmt.Sprintf("panic reading reopened state at=%s msg=%s", w, trimNum(m)), m)
 			return "PANIC"
